@@ -231,3 +231,80 @@ def run_ops(ops, q, o, extra):
     for name, src in ops:
         out[name] = outcome(lambda: eval(src, ns))
     return out
+
+
+# ---- which registry does the result of a follow-up operation belong to? --------------------
+def registry_of(x):
+    if isinstance(x, Unit):
+        return x.registry
+    if isinstance(x, unyt_array):
+        return x.units.registry
+    return None
+
+
+def bound_to(x, q, other=None):
+    """the registry the unit of result `x` is bound to, relative to the operand `q` it was computed
+    from: 'own' (q's registry), 'counterpart' (the registry of `other`, the second object of the
+    original/restored pair), 'default' (unyt's global registry), 'foreign', or 'n/a' (no unit)"""
+    reg = registry_of(x)
+    if reg is None:
+        return "n/a"
+    if reg is registry_of(q):
+        return "own"
+    if reg is unyt.unit_registry.default_unit_registry:
+        return "default"
+    if other is not None and reg is registry_of(other):
+        return "counterpart"
+    return "foreign"
+
+
+def run_bind(ops, q, o, extra, other=None):
+    """like run_ops, but keeps the result objects: name -> (outcome, bound_to(result), result)"""
+    ns = {"np": np, "unyt": unyt, "Unit": Unit, "unyt_array": unyt_array, "unyt_quantity": unyt_quantity,
+          "UnitRegistry": UnitRegistry, "q": q, "o": o, "copy": copy, "pickle": pickle,
+          "P": lambda s, v=2.0: unyt_quantity(v, s, registry=q.units.registry)}
+    ns.update(extra)
+    out = {}
+    for name, src in ops:
+        try:
+            x = eval(src, ns)
+            out[name] = (("ok", canon(x)), bound_to(x, q, other), x)
+        except Exception as e:  # noqa
+            out[name] = (("exc", type(e).__name__), "n/a", None)
+    return out
+
+
+def _untag(x, tagged, plain):
+    if isinstance(x, str):
+        return x.replace(tagged, plain)
+    if isinstance(x, tuple):
+        return tuple(_untag(i, tagged, plain) for i in x)
+    return x
+
+
+def follow_new_symbol(results, q, tag=""):
+    """the follow-up program of a user who keeps working with the object: define, in q's OWN registry,
+    a new unit c11new_<tag><operation> eight times as large as the unit of the operation's result, and
+    convert the result (computed BEFORE the unit existed) to it.  A result that belongs to q's
+    registry converts (value/8); a result handed out for another registry does not know the unit.
+    `tag` makes the symbols of this call unique (a result bound to the counterpart's registry must not
+    find a symbol of the same name that the counterpart's follow-up defined there); it is removed from
+    the reported outcomes, so outcomes of different calls compare equal when they agree."""
+    reg = registry_of(q)
+    out, todo = {}, []
+    # all units are defined first and all conversions follow (the registry re-hashes its whole table
+    # the first time a unit is hashed after every change)
+    for name, (oc, cls, x) in results.items():
+        u = x if isinstance(x, Unit) else x.units if isinstance(x, unyt_array) else None
+        if u is None:
+            continue
+        sym = "c11new_" + tag + name
+        try:
+            reg.add(sym, 8.0 * float(u.base_value), u.dimensions)
+            todo.append((name, sym, x))
+        except Exception as e:  # noqa
+            out[name] = ("exc", "add:" + type(e).__name__)
+    for name, sym, x in todo:
+        out[name] = _untag(outcome(lambda: ((1.0 * x) if isinstance(x, Unit) else x).to(sym)),
+                           "c11new_" + tag, "c11new_")
+    return out
